@@ -1,29 +1,87 @@
 (* C08  Happiness value equals a maximum server/share matching.
-   Statements only; proofs are in Proofs/Matching.v.  Model: Model/Matching.v
-   (servers_of_happiness and the graph helpers of happiness_upload.py).
+   Statements only; proofs are in Proofs/Matching*.v.  Model: Model/Matching.v
+   (servers_of_happiness and the graph helpers of happiness_upload.py: re-indexing,
+   flow network, BFS with colours and predecessors, augmenting path, residual
+   network, augmentation loop).
 
-   FULL STATEMENTS (the property):
-     soh_is_matching        forall svm n, soh_servermap svm = Some n ->
-                              exists M, is_matching svm M /\ n = Z.of_nat (length M)
-     soh_is_maximum         forall svm n, soh_servermap svm = Some n ->
-                              0 <= n /\ max_matching_size svm (Z.to_nat n)
-     soh_order_independent  forall a b n m, same_edges a b -> soh_servermap a = Some n ->
-                              soh_servermap b = Some m -> n = m
-   PROVED HERE: the same three with the extra hypothesis `soh_certified svm = true`
-   (names ..._partial): the boolean validator accepts the matching (unit flows) and
-   the vertex cover (servers the last BFS did not colour, shares it coloured) read off
-   the algorithm's final state.  What is missing for the full statements is
-   `forall svm, soh_certified svm = true` (augmentation preserves the flow
-   invariant, BFS closure, fuel suffices); the harness evaluates soh_certified in Coq
-   on every correspondence case (all 74 963 relations <= 4x4 in the thorough tier).
-   certificate_checker_sound, max_matching_unique, shares_by_server_transposes are
-   unconditional and hold for all graphs. *)
+   The three theorems of the property are proved at full strength for the model:
+   whenever the model returns a number (it returns None only when the explicit fuel
+   - servers + 1 augmentations, vertices + 1 BFS steps - runs out or Python would
+   raise), that number is the size of a matching of the server/share relation, no
+   larger matching exists, and it is the same for every presentation of the relation.
+   `wf_svm` is the type invariant of the Python value (a dict has no repeated key, a
+   set no repeated element); shares_by_server always produces it.
+   Proof: flow invariant preserved by each augmentation along the BFS predecessor
+   path (Proofs/MatchingAugment.v), BFS closure (Proofs/MatchingBfs.v), Koenig cover
+   from the coloured set (Proofs/MatchingLoop.v), re-indexing (Proofs/MatchingNetwork.v).
+   Termination is proved too (Proofs/MatchingTotal.v): the fuel always suffices, so
+   the model returns a number for every well-formed servermap and every sharemap. *)
 From Coq Require Import List NArith ZArith Bool Permutation.
-From Verif Require Import Model.Matching Proofs.Matching.
+From Verif Require Import Model.Matching Proofs.Matching Proofs.MatchingNetwork Proofs.MatchingFull Proofs.MatchingTotal.
 Import ListNotations.
 Local Open Scope N_scope.
 
-(* Koenig, easy direction, as a checker: any graph, any claimed matching and cover. *)
+(* ---- the property, on the servermap servers_of_happiness iterates ------------------ *)
+
+Theorem soh_is_matching :
+  forall svm n, wf_svm svm -> soh_servermap svm = Some n ->
+    exists M, is_matching svm M /\ n = Z.of_nat (length M).
+Proof. exact soh_matching_full. Qed.
+Print Assumptions soh_is_matching.
+
+Theorem soh_is_maximum :
+  forall svm n, wf_svm svm -> soh_servermap svm = Some n ->
+    (0 <= n)%Z /\ max_matching_size svm (Z.to_nat n).
+Proof. exact soh_maximum_full. Qed.
+Print Assumptions soh_is_maximum.
+
+(* the fuel (servers + 1 augmentations, vertices + 1 BFS steps, vertices path steps) suffices *)
+Theorem soh_total : forall svm, wf_svm svm -> exists n, soh_servermap svm = Some n.
+Proof. exact soh_servermap_total. Qed.
+Print Assumptions soh_total.
+
+(* any two presentations (dict insertion order, set iteration order) of one relation *)
+Theorem soh_order_independent :
+  forall a b n m, wf_svm a -> wf_svm b -> same_edges a b ->
+    soh_servermap a = Some n -> soh_servermap b = Some m -> n = m.
+Proof. exact soh_order_independent_full. Qed.
+Print Assumptions soh_order_independent.
+
+(* ---- the same at the level of the sharemap argument --------------------------------- *)
+
+Theorem shares_by_server_transposes :
+  forall sm p s, edge (shares_by_server sm) p s <-> sm_edge sm p s.
+Proof. exact shares_by_server_edges. Qed.
+Print Assumptions shares_by_server_transposes.
+
+Theorem shares_by_server_well_formed : forall sm, wf_svm (shares_by_server sm).
+Proof. exact shares_by_server_wf. Qed.
+Print Assumptions shares_by_server_well_formed.
+
+Theorem servers_of_happiness_is_maximum_matching :
+  forall sm n, servers_of_happiness sm = Some n ->
+    (0 <= n)%Z /\ max_matching_size (shares_by_server sm) (Z.to_nat n).
+Proof. exact servers_of_happiness_correct. Qed.
+Print Assumptions servers_of_happiness_is_maximum_matching.
+
+Theorem servers_of_happiness_returns : forall sm, exists n, servers_of_happiness sm = Some n.
+Proof. exact servers_of_happiness_total. Qed.
+Print Assumptions servers_of_happiness_returns.
+
+Theorem servers_of_happiness_order_independent :
+  forall sm sm' n m, Permutation sm sm' ->
+    servers_of_happiness sm = Some n -> servers_of_happiness sm' = Some m -> n = m.
+Proof. exact servers_of_happiness_perm. Qed.
+Print Assumptions servers_of_happiness_order_independent.
+
+Theorem servers_of_happiness_depends_on_relation_only :
+  forall sm sm' n m, (forall p s, sm_edge sm p s <-> sm_edge sm' p s) ->
+    servers_of_happiness sm = Some n -> servers_of_happiness sm' = Some m -> n = m.
+Proof. exact servers_of_happiness_order. Qed.
+Print Assumptions servers_of_happiness_depends_on_relation_only.
+
+(* ---- Koenig, easy direction, as a checker (any graph, any claimed matching and cover);
+        also used by C07 ---------------------------------------------------------------- *)
 Theorem certificate_checker_sound :
   forall (svm : servermap) (n : Z) (M : list (N * N)) (CL CR : list N),
     valid_certificate svm n M CL CR = true ->
@@ -36,56 +94,24 @@ Theorem max_matching_unique :
 Proof. exact max_matching_size_unique. Qed.
 Print Assumptions max_matching_unique.
 
-Theorem soh_is_matching_partial :
-  forall svm n, soh_certified svm = true -> soh_servermap svm = Some n ->
-    exists M, is_matching svm M /\ n = Z.of_nat (length M).
-Proof. exact soh_matching_of_certified. Qed.
-Print Assumptions soh_is_matching_partial.
-
-Theorem soh_is_maximum_partial :
-  forall svm n, soh_certified svm = true -> soh_servermap svm = Some n ->
-    (0 <= n)%Z /\ max_matching_size svm (Z.to_nat n).
-Proof. exact soh_maximum_of_certified. Qed.
-Print Assumptions soh_is_maximum_partial.
-
-(* Any two presentations (dict insertion order, set iteration order) of the same
-   relation give the same number. *)
-Theorem soh_order_independent_partial :
-  forall a b n m, same_edges a b -> soh_certified a = true -> soh_certified b = true ->
-    soh_servermap a = Some n -> soh_servermap b = Some m -> n = m.
-Proof. exact soh_order_independent_of_certified. Qed.
-Print Assumptions soh_order_independent_partial.
-
-(* shares_by_server transposes the sharemap, so the graph of the theorems above is the
-   relation "server holds share" of the sharemap, and permuting the sharemap's
-   association list (or any of its peer lists) leaves that relation unchanged. *)
-Theorem shares_by_server_transposes :
-  forall sm p s, edge (shares_by_server sm) p s <-> sm_edge sm p s.
-Proof. exact shares_by_server_edges. Qed.
-Print Assumptions shares_by_server_transposes.
-
-Theorem sharemap_permutation_same_relation :
-  forall a b, Permutation a b -> forall p s, sm_edge a p s <-> sm_edge b p s.
-Proof. exact sm_edge_perm. Qed.
-Print Assumptions sharemap_permutation_same_relation.
-
-(* ---- non-vacuity ------------------------------------------------------------- *)
+(* ---- non-vacuity ------------------------------------------------------------------------ *)
 (* The layout of the servers_of_happiness docstring. *)
 Definition ex_doc : servermap := [(1, [1; 2; 3; 4]); (2, [6]); (3, [3]); (4, [4]); (5, [2])].
 
-Example ex_doc_value : soh_servermap ex_doc = Some 5%Z.
+Example ex_doc_value_nonvacuous : soh_servermap ex_doc = Some 5%Z.
 Proof. vm_compute. reflexivity. Qed.
 
-Example ex_doc_certified_nonvacuous : soh_certified ex_doc = true.
-Proof. vm_compute. reflexivity. Qed.
+Example ex_doc_wf_nonvacuous : nodupN (map fst ex_doc) = true /\ forallb (fun e => nodupN (snd e)) ex_doc = true.
+Proof. vm_compute. split; reflexivity. Qed.
 
-(* A relation where the greedy first choice must be re-routed (3 servers, Hall-tight). *)
+(* A relation where the first choice must be re-routed along an alternating path. *)
 Example ex_reroute_nonvacuous :
   soh_servermap [(1, [1; 2]); (2, [1]); (3, [2; 3])] = Some 3%Z /\
   soh_certified [(1, [1; 2]); (2, [1]); (3, [2; 3])] = true.
 Proof. vm_compute. split; reflexivity. Qed.
 
-(* Every servermap over 3 servers and 3 shares (512 relations) is certified. *)
+(* Every servermap over 3 servers and 3 shares (512 relations) returns a number and its
+   certificate is accepted. *)
 Example ex_all_3x3_certified_nonvacuous :
   forallb soh_certified (all_servermaps [1; 2; 3] [1; 2; 3]) = true /\
   length (all_servermaps [1; 2; 3] [1; 2; 3]) = 512%nat.
